@@ -20,6 +20,7 @@ import multiprocessing as mp
 import os
 import pickle
 import random
+import time
 import weakref
 
 from . import common, tlc
@@ -169,12 +170,19 @@ def _content(ds):
     return out, clean
 
 
+def _fresh(name):
+    """An equal but distinct str object, as two calls in a user's program
+    would pass (a memo keyed by object identity must not look shared)."""
+    return (name + ' ')[:-1]
+
+
 def _arg(step):
     if step['op'] == 'none':
         return None
     if step['op'] == 'get':
-        return step['names'][0]
-    return tuple(step['names']) if step['tup'] else list(step['names'])
+        return _fresh(step['names'][0])
+    names = [_fresh(n) for n in step['names']]
+    return tuple(names) if step['tup'] else names
 
 
 def _ask(db, step):
@@ -446,8 +454,13 @@ def collect(tier, res, rng):
     chosen = {}
     info = []
     model_refuted = {}
-    for name, c in plan['bfs']:
-        recs, st = enumerate_behaviours(c)
+    # the configurations are independent TLC runs: side by side
+    from concurrent.futures import ThreadPoolExecutor
+    share = max(2, common.NCPU // len(plan['bfs']))
+    common.scratch()
+    with ThreadPoolExecutor(len(plan['bfs'])) as ex:
+        runs = list(ex.map(lambda nc: enumerate_behaviours(nc[1], workers=share), plan['bfs']))
+    for (name, c), (recs, st) in zip(plan['bfs'], runs):
         res.add_tlc(st)
         flagged = 0
         for r in recs:
@@ -477,36 +490,54 @@ def collect(tier, res, rng):
 def run(prop, tier):
     res = Result(prop, tier)
     rng = random.Random(common.seed())
+    timing = res.coverage['timing_s'] = {}
+    t0 = time.time()
+
+    def lap(what):
+        nonlocal t0
+        timing[what] = round(time.time() - t0, 1)
+        t0 = time.time()
     try:
         behaviours = collect(tier, res, rng)
+        lap('tlc_enumeration')
         files = JsonFiles()
         jobs = [(b['parts'], b['kind'], b['history'],
                  files.paths(b['parts']) if b['kind'] == 'json' else None)
                 for b in behaviours]
         obs = execute_all(jobs)
+        lap('real_execution')
         records = [{'id': i + 1, 'parts': b['parts'], 'kind': b['kind'],
                     'history': b['history'], 'obs': o}
                    for i, (b, o) in enumerate(zip(behaviours, obs))]
         verdicts, st = validate_records(records, module=MODULE, cfg=CFG)
         res.add_tlc(st)
+        lap('tlc_trace_validation')
         # design level: the clauses of C19 as invariants of the model - as the
         # tree is now (Defects.tla) and with every defect of this family repaired
         design = []
         open_here = [u for u in common.unfixed_ids() if u == 'S11']
-        for name, fam, rich, mh in TIERS[tier]['design']:
-            now, st1 = design_check(fam, rich, mh, None)
+        repaired = [u for u in common.unfixed_ids() if u not in open_here]
+        jobs_d = [(name, fam, rich, mh, uf)
+                  for name, fam, rich, mh in TIERS[tier]['design']
+                  for uf in ([None, repaired] if open_here else [None])]
+        from concurrent.futures import ThreadPoolExecutor
+        share = max(2, common.NCPU // max(1, len(jobs_d)))
+        with ThreadPoolExecutor(max(1, len(jobs_d))) as ex:
+            outs = list(ex.map(lambda j: design_check(j[1], j[2], j[3], j[4], workers=share),
+                               jobs_d))
+        got = {}
+        for (name, _, _, _, uf), (refuted, st1) in zip(jobs_d, outs):
             res.add_tlc(st1)
-            rep = now
-            if open_here:
-                rep, st2 = design_check(fam, rich, mh, [u for u in common.unfixed_ids()
-                                                        if u not in open_here])
-                res.add_tlc(st2)
-            design.append({'config': name, 'refuted_on_current_model': now,
+            got.setdefault(name, {})['current' if uf is None else 'repaired'] = refuted
+        for name, g in got.items():
+            rep = g.get('repaired', g['current'])
+            design.append({'config': name, 'refuted_on_current_model': g['current'],
                            'refuted_on_repaired_model': rep})
             if rep:
                 res.machinery_errors.append(
                     f'design check {name}: the REPAIRED model violates {rep}')
         res.coverage['design_invariants'] = design
+        lap('tlc_design_invariants')
     except tlc.TlcError as e:
         res.machinery_errors.append(str(e))
         return res.finish()
